@@ -141,6 +141,13 @@ def getAllBatchFees (σ : Sched) (st : St) (pool : List PoolTx) (maxElements : N
   let r := rangeMap σ st (createBatchFees pool maxElements baseFees)
   (r.2, .fees (r.1.mergeSort feeLe))
 
+/-! ## a tally that stops early (the shape the translator classes `accumulate+exit`) -/
+
+/-- accumulate the validators' contributions in iteration order but leave the loop once `yes` exceeds `decided` -/
+def tallyUntil (decided : Nat) : Vec5 → List Vec5 → Vec5
+  | acc, [] => acc
+  | acc, v :: vs => if acc.1 > decided then acc else tallyUntil decided (vadd acc v) vs
+
 /-! ## the machine -/
 
 inductive Op where
